@@ -38,6 +38,10 @@ def run(ctx: Context) -> None:
     ctx.rule(c12.sample_rules)
     ctx.rule(r3_persisted)
     ctx.rule(r3b_write_order)
+    # the stored labels are those of this run only: the results table is rewritten whole, never appended to what the folder held (C04-R4)
+    from . import c04
+    from ..persist import Plumbing as _Pl
+    ctx.rule(c04.r4b_append_modes, _Pl(ctx.prog))
     ctx.rule(r4_no_stale_cache)
     ctx.rule(r4_channel)
 
